@@ -133,7 +133,7 @@ func cmdCheck(args []string) int {
 		fmt.Fprintf(os.Stderr, "ERROR: %v\n", err)
 		return 2
 	}
-	eng := &Engine{spec: spec, verifDir: vd, logw: os.Stderr, tier: *tier}
+	eng := &Engine{spec: spec, verifDir: vd, logw: os.Stderr, tier: *tier, noIfConv: os.Getenv("VERIF_NO_IFCONV") != ""}
 	if !*verbose {
 		eng.logw = &bytes.Buffer{}
 	}
